@@ -52,7 +52,7 @@ class Engine(ExprMixin, CallMixin, StmtMixin):
         self.stmt_count = 0
         self.allow_nonterminating = False
         self.known_classes = set()
-        self.self_consts: Dict[str, Val] = {}
+        self.self_consts: Dict[str, Val] = dict(getattr(world, "self_consts", {}))
         self._fn_cache: Dict[str, Any] = {}
         self.extra_axioms: List[Any] = []
         self.self_val = Val(world.self_sort, (z3.Const("self", world.self_sort.z),))
@@ -195,7 +195,8 @@ class Engine(ExprMixin, CallMixin, StmtMixin):
                 if isinstance(sub, (ast.For, ast.AsyncFor, ast.While)):
                     self.loop_ord[id(sub)] = k
                     k += 1
-            for o in c.loops:
+            self.cur_loops = c.loops_for(target)
+            for o in self.cur_loops:
                 if o >= k:
                     raise Unsupported(fn, f"contract-out-of-date: loop ordinal {o} does not exist (function has {k} loops)")
             # parameters
